@@ -2,6 +2,7 @@ mod c10s;
 mod c12;
 mod c16s;
 mod c22s;
+mod c24s;
 mod c51;
 mod sched;
 use vkit::{Check, Level};
@@ -13,6 +14,9 @@ fn main() {
     }
     if args.get(1).map(String::as_str) == Some("--c16-sched") {
         std::process::exit(c16s::run_child(args.get(2).map_or("", String::as_str)));
+    }
+    if args.get(1).map(String::as_str) == Some("--c24-sched") {
+        std::process::exit(c24s::run_child(args.get(2).map_or("", String::as_str)));
     }
     if args.get(1).map(String::as_str) == Some("--c22-sched") {
         std::process::exit(c22s::run_child(args.get(2).map_or("", String::as_str)));
